@@ -49,7 +49,7 @@ def rewrite_shards(base, t, label, expect="confirm", finding=None, only=None):
             args = "t0, t1, has_a0, la0, ra0, has_b0, lb0, rb0, has_a1, la1, ra1, has_b1, lb1, rb1"
             lenpre = []
             for tn, n, L in (("t0", n0, L0), ("t1", n1, L1)):
-                lenpre.append(f"len({tn}) == {L}" if L is not None else f"len({tn}) <= {3 if n == 1 else 0}")
+                lenpre.append(f"len({tn}) == {L}" if L is not None else f"len({tn}) <= {(2 if maxlen <= 5 else 3) if n == 1 else 0}")
             src = gen.wrapper("c03", f"c03.rewrite_two_lines({args})", ints=ints, strs=[("t0", maxlen), ("t1", maxlen)], fixed=fixed,
                               pres=[" and ".join(lenpre),
                                     "c03.span_ok(t0, has_a0, la0, ra0) and c03.span_ok(t0, has_b0, lb0, rb0) and c03.span_ok(t1, has_a1, la1, ra1) "
@@ -85,7 +85,7 @@ def obligations(tier):
         obs.append(Ob("L2.has_overlap_spec[known: adjacent]", "c03.py", "has_overlap_spec", {"only_adjacent": True}, expect="known",
                       finding=KEY_ADJ, timeout=t))
     obs.append(Ob("twin.some_rewrite", "c03.py", "twin_never_rewrites", {}, expect="refute", timeout=60))
-    obs.append(Ob("L4.self_pattern", "c03.py", "self_pattern", {}, timeout=t))
-    obs.append(Ob("L5.reread_closure[setup.cfg]", "c03.py", "reread_closure", {}, timeout=t))
+    obs.append(Ob("L4.self_pattern", "c03.py", "self_pattern", {}, timeout=2 * t))
+    obs.append(Ob("L5.reread_closure[setup.cfg]", "c03.py", "reread_closure", {}, timeout=2 * t))
     obs.append(Ob("L6.merge_file_patterns", "c03.py", "merge_file_patterns", {}, timeout=t))
     return obs
